@@ -97,12 +97,16 @@ fn borrow_method(k: usize, x: usize) -> (String, String) {
             format!("pub fn tagline<'a>(deps: &'a impl Sized, k: &str) -> &'a [&'a str] {{ rt::trace(format!(\"X{x}.TL|{{}}|{{}}\", rt::addr(deps), k)); &[\"X{x}\"] }}\n"),
         ),
         7 => ("fn tagline<'a>(self: &'a Self, n: u32) -> &'a str".to_string(), format!("pub fn tagline<'a>(deps: &'a impl Sized, n: u32) -> &'a str {{ rt::trace(format!(\"X{x}.TL|{{}}|{{}}\", rt::addr(deps), n)); \"X{x}\" }}\n")),
+        9 => (
+            "fn tagline(&'_ self, k: &str) -> (&str, usize)".to_string(),
+            format!("pub fn tagline<'a>(deps: &'a impl Sized, k: &str) -> (&'a str, usize) {{ rt::trace(format!(\"X{x}.TL|{{}}|{{}}\", rt::addr(deps), k)); (\"X{x}\", k.len()) }}\n"),
+        ),
         8 => ("fn tagline(&self, n: u32) -> &str".to_string(), format!("pub fn tagline(deps: &'_ impl Sized, n: u32) -> &str {{ rt::trace(format!(\"X{x}.TL|{{}}|{{}}\", rt::addr(deps), n)); \"X{x}\" }}\n")),
         _ => ("fn tagline<'a>(&self, s: &'a str) -> &'a str".to_string(), format!("pub fn tagline<'a>(deps: &impl Sized, s: &'a str) -> &'a str {{ rt::trace(format!(\"X{x}.TL|{{}}|{{}}\", rt::addr(deps), s)); s }}\n")),
     }
 }
 
-pub const BORROW_KINDS: [&str; 9] = ["borrow from the receiver (elided lifetime)", "borrow from the receiver (named lifetime)", "borrow from an argument (named lifetime)", "borrow from the receiver (named lifetime next to an elided one in the output)", "borrow from the receiver (elided) next to another reference argument", "elided lifetime nested inside an elided reference output", "elided lifetime nested inside an elided reference output next to another reference argument", "borrow from a typed receiver `self: &'a Self`", "borrow from the receiver, the block's dependency written `&'_ impl ..`"];
+pub const BORROW_KINDS: [&str; 10] = ["borrow from the receiver (elided lifetime)", "borrow from the receiver (named lifetime)", "borrow from an argument (named lifetime)", "borrow from the receiver (named lifetime next to an elided one in the output)", "borrow from the receiver (elided) next to another reference argument", "elided lifetime nested inside an elided reference output", "elided lifetime nested inside an elided reference output next to another reference argument", "borrow from a typed receiver `self: &'a Self`", "borrow from the receiver, the block's dependency written `&'_ impl ..`", "borrow from a receiver written `&'_ self` next to another reference argument"];
 
 pub fn gen_case(t: &mut Tape, excl: &[usize]) -> Case {
     let dynamic = t.chance(2, 5);
@@ -132,7 +136,7 @@ pub fn gen_case(t: &mut Tape, excl: &[usize]) -> Case {
         methods[0].is_async = true;
     }
     // an extra method that returns a borrow: from the receiver / the dependency (elided or named lifetime) or from an argument
-    let borrow_kind: Option<usize> = if t.chance(1, 3) { Some([0, 1, 2, 3, 4, 2, 5, 6, 7, 8][t.choose(10)]) } else { None };
+    let borrow_kind: Option<usize> = if t.chance(1, 3) { Some([0, 1, 2, 3, 4, 2, 5, 6, 7, 8, 9][t.choose(11)]) } else { None };
     let borrow_kind = borrow_kind.filter(|k| !excl.contains(k));
     // static selection: a method with type / const parameters of its own (one inferable from an argument, one not),
     // and a method that takes `self` by value (the block's fn takes its dependency by value)
@@ -290,7 +294,22 @@ pub fn gen_case(t: &mut Tape, excl: &[usize]) -> Case {
     for a in 0..n_apps {
         src.push_str(&format!("impl GDep<i32> for A{a} {{ fn gdep(&self) -> u32 {{ 40 }} }}\nimpl GDep<u8> for A{a} {{ fn gdep(&self) -> u32 {{ 50 }} }}\nimpl pa::Leaf for A{a} {{ fn leaf(&self) -> u32 {{ 60 }} }}\nimpl pb::Leaf for A{a} {{ fn leaf(&self) -> u32 {{ 70 }} }}\n"));
     }
+    // a second delegated trait (static selection) with an associated fn that has no receiver: there is no `Impl<T>` to
+    // hand on, the call goes to the target's associated fn (written as a hand-made impl of the target trait: an
+    // `#[entrait] impl` block takes fns with a dependency only)
+    let assoc_fn_trait = !dynamic && t.chance(1, 5);
+    if assoc_fn_trait {
+        src.push_str("/*GEN*/ #[::entrait::entrait(MkImpl, delegate_by = DelegateMk)]\npub trait Mk { fn make(x: i32, y: i32) -> String; fn probe(&self) -> i32; }\n");
+        for a in 0..n_apps {
+            src.push_str(&format!("pub struct MkT{a};\n/*GEN*/ impl<T> MkImpl<T> for MkT{a} {{ fn make(x: i32, y: i32) -> String {{ format!(\"MK{a}|{{}}|{{}}\", x, y) }} fn probe(_i: &::entrait::Impl<T>) -> i32 {{ {a} }} }}\n/*GEN*/ impl DelegateMk<Self> for A{a} {{ type Target = MkT{a}; }}\n"));
+        }
+    }
     src.push_str("pub fn run() -> Vec<String> {\n    let mut fails: Vec<String> = vec![];\n");
+    if assoc_fn_trait {
+        for a in 0..n_apps {
+            src.push_str(&format!("/*GEN*/ rt::expect_eq(&mut fails, \"associated fn without a receiver of a statically delegated trait, through Impl<A{a}>\", &<::entrait::Impl<A{a}> as Mk>::make(3, 4), &String::from(\"MK{a}|3|4\"));\n"));
+        }
+    }
     for a in 0..n_apps {
         src.push_str(&format!("    let app{a} = ::entrait::Impl::new(mk_a{a}());\n"));
         for (i, m) in methods.iter().enumerate() {
@@ -317,7 +336,7 @@ pub fn gen_case(t: &mut Tape, excl: &[usize]) -> Case {
     }
     if let Some(k) = borrow_kind {
         for a in 0..n_apps {
-            let arg = if k == 2 || k == 4 || k == 6 { "\"arg\"" } else { "77" };
+            let arg = if k == 2 || k == 4 || k == 6 || k == 9 { "\"arg\"" } else { "77" };
             src.push_str("    {\n        let _ = rt::take();\n");
             src.push_str(&format!("        let direct = format!(\"{{:?}}\", X{a}::tagline(&app{a}, {arg}));\n        let t_direct = rt::take();\n"));
             src.push_str(&format!("/*GEN*/ let via = format!(\"{{:?}}\", Tr::tagline(&app{a}, {arg}));\n        let t_via = rt::take();\n"));
@@ -408,8 +427,11 @@ pub fn gen_case(t: &mut Tape, excl: &[usize]) -> Case {
     if impl_named && hygiene_block.is_none() {
         classes.push("block_fn_parameter_named___impl");
     }
+    if assoc_fn_trait {
+        classes.push("delegated_trait_with_an_associated_fn_without_receiver");
+    }
     if let Some(k) = borrow_kind {
-        classes.push(["borrowed_return:receiver_elided", "borrowed_return:receiver_named", "borrowed_return:argument_named", "borrowed_return:receiver_named_and_elided", "borrowed_return:receiver_elided_next_to_reference_argument", "borrowed_return:nested_elided_in_elided_reference", "borrowed_return:nested_elided_in_elided_reference_next_to_reference_argument", "borrowed_return:typed_receiver_named", "borrowed_return:block_dependency_with_anonymous_lifetime"][k]);
+        classes.push(["borrowed_return:receiver_elided", "borrowed_return:receiver_named", "borrowed_return:argument_named", "borrowed_return:receiver_named_and_elided", "borrowed_return:receiver_elided_next_to_reference_argument", "borrowed_return:nested_elided_in_elided_reference", "borrowed_return:nested_elided_in_elided_reference_next_to_reference_argument", "borrowed_return:typed_receiver_named", "borrowed_return:block_dependency_with_anonymous_lifetime", "borrowed_return:receiver_with_anonymous_lifetime"][k]);
     }
     if gen_method.is_some() {
         classes.push("method_with_type_and_const_parameters");
